@@ -62,6 +62,11 @@ pub trait Scenario: Sync {
 pub trait CaseSpace: Sync {
     fn name(&self) -> String;
     fn total(&self) -> usize;
+    /// cases that run real tasks on the kernel: repeated under several kernel seeds in the
+    /// thorough tier
+    fn seeded(&self) -> bool {
+        false
+    }
     fn run(&self, index: usize, transcript: bool) -> RunResult;
 }
 
@@ -235,6 +240,8 @@ pub struct Check {
     pub new_violations: Vec<(String, String, String)>,
     pub known_hits: Vec<String>,
     threads: usize,
+    /// kernel seed offset of the exploration in progress
+    pub kseed: u64,
 }
 
 fn greedy_minimise(id: &str, scn: &dyn Scenario, path: &[usize], sig: &(String, String)) -> Vec<usize> {
@@ -284,6 +291,7 @@ impl Check {
             new_violations: Vec::new(),
             known_hits: Vec::new(),
             threads,
+            kseed: 0,
         }
     }
 
@@ -297,7 +305,26 @@ impl Check {
 
     /// Explore all histories of `scn` of length == depth (every shorter history is a prefix and
     /// is checked after each of its events).
+    /// kernel seeds of a tier: the thorough tier repeats every stateful exploration under three
+    fn kernel_seeds(&self) -> Vec<u64> {
+        if self.tier == "thorough" {
+            vec![0, 1, 2]
+        } else {
+            vec![0]
+        }
+    }
+
     pub fn explore(&mut self, scn: &dyn Scenario) {
+        for ks in self.kernel_seeds() {
+            self.kseed = ks;
+            crate::kernel::SEED_OFFSET.store(ks, Ordering::SeqCst);
+            self.explore_one(scn);
+        }
+        self.kseed = 0;
+        crate::kernel::SEED_OFFSET.store(0, Ordering::SeqCst);
+    }
+
+    fn explore_one(&mut self, scn: &dyn Scenario) {
         let alphabet = scn.alphabet();
         let n = alphabet.len();
         let depth = scn.depth();
@@ -472,6 +499,7 @@ impl Check {
         }
         self.scenarios.push(json!({
             "name": scn.name(),
+            "kernel_seed": self.kseed,
             "alphabet_size": n,
             "alphabet": alphabet,
             "depth": depth,
@@ -484,6 +512,17 @@ impl Check {
 
     /// Evaluate every case of an indexed finite input space.
     pub fn cases(&mut self, space: &dyn CaseSpace) {
+        let seeds = if space.seeded() { self.kernel_seeds() } else { vec![0] };
+        for ks in seeds {
+            self.kseed = ks;
+            crate::kernel::SEED_OFFSET.store(ks, Ordering::SeqCst);
+            self.cases_one(space);
+        }
+        self.kseed = 0;
+        crate::kernel::SEED_OFFSET.store(0, Ordering::SeqCst);
+    }
+
+    fn cases_one(&mut self, space: &dyn CaseSpace) {
         let total = space.total();
         let t_start = Instant::now();
         let cursor = AtomicUsize::new(0);
@@ -583,6 +622,7 @@ impl Check {
         }
         self.scenarios.push(json!({
             "name": name,
+            "kernel_seed": self.kseed,
             "cases": total,
             "evaluated": acc.histories,
             "wall_s": t_start.elapsed().as_secs_f64(),
@@ -626,6 +666,7 @@ impl Check {
         let replay = json!({
             "property": self.id,
             "kind": "scenario",
+            "kseed": self.kseed,
             "scenario": sname,
             "clause": sig.0,
             "key": sig.1,
@@ -662,6 +703,7 @@ impl Check {
         let replay = json!({
             "property": self.id,
             "kind": "case",
+            "kseed": self.kseed,
             "space": space.name(),
             "clause": sig.0,
             "key": sig.1,
@@ -794,6 +836,8 @@ fn dfs(
 pub fn read_replay(file: &str) -> (String, String, Vec<usize>) {
     let text = std::fs::read_to_string(file).expect("read replay file");
     let v: Value = serde_json::from_str(&text).expect("replay JSON");
+    // the kernel seed the history was found under
+    crate::kernel::SEED_OFFSET.store(v["kseed"].as_u64().unwrap_or(0), Ordering::SeqCst);
     let kind = v["kind"].as_str().unwrap_or("scenario").to_string();
     if kind == "case" {
         (
